@@ -253,6 +253,13 @@ func serverDeviations() []srvDev {
 		{name: "iat-age-max-minus-1", expect: "", mut: setTime("iat", func(n, a int64) string { return fmt.Sprint(n - a + 1) })},
 		{name: "iat-very-old", expect: "reject", mut: setRaw("iat", "1000")},
 		{name: "iat-future", expect: "accept", mut: setTime("iat", func(n, a int64) string { return fmt.Sprint(n + 500) })},
+		// nbf ("not before"): the token's validity has not begun / begins now / began earlier
+		{name: "nbf-future", expect: "reject", mut: setTime("nbf", func(n, _ int64) string { return fmt.Sprint(n + 120) })},
+		{name: "nbf-next-second-but-one", expect: "reject", mut: setTime("nbf", func(n, _ int64) string { return fmt.Sprint(n + 2) })},
+		{name: "nbf-now", mut: setTime("nbf", func(n, _ int64) string { return fmt.Sprint(n) })},
+		{name: "nbf-past", expect: "accept", mut: setTime("nbf", func(n, _ int64) string { return fmt.Sprint(n - 30) })},
+		{name: "nbf-string", expect: "reject", mut: setRaw("nbf", `"17"`)},
+		{name: "nbf-far-future-exponent", expect: "reject", mut: setRaw("nbf", "4e9")},
 		{name: "iat-absent", expect: "accept", mut: delClaim("iat")},
 		{name: "iat-string", expect: "reject", mut: setRaw("iat", `"now"`)},
 		{name: "iat-bool", expect: "reject", mut: setRaw("iat", `true`)},
@@ -688,6 +695,13 @@ func verifyDeviations() []verDev {
 		{name: "iat-age-max-plus-1", expect: "reject", mut: setTime("iat", func(n, a int64) string { return fmt.Sprint(n - a - 1) })},
 		{name: "iat-age-max-minus-1", mut: setTime("iat", func(n, a int64) string { return fmt.Sprint(n - a + 1) })},
 		{name: "iat-future", expect: "accept", mut: setTime("iat", func(n, a int64) string { return fmt.Sprint(n + 500) })},
+		// nbf ("not before"): the token's validity has not begun / begins now / began earlier
+		{name: "nbf-future", expect: "reject", mut: setTime("nbf", func(n, _ int64) string { return fmt.Sprint(n + 120) })},
+		{name: "nbf-next-second-but-one", expect: "reject", mut: setTime("nbf", func(n, _ int64) string { return fmt.Sprint(n + 2) })},
+		{name: "nbf-now", mut: setTime("nbf", func(n, _ int64) string { return fmt.Sprint(n) })},
+		{name: "nbf-past", expect: "accept", mut: setTime("nbf", func(n, _ int64) string { return fmt.Sprint(n - 30) })},
+		{name: "nbf-string", expect: "reject", mut: setRaw("nbf", `"17"`)},
+		{name: "nbf-far-future-exponent", expect: "reject", mut: setRaw("nbf", "4e9")},
 		{name: "iat-absent", expect: "accept", mut: del("iat")},
 		{name: "iat-string", expect: "reject", mut: setRaw("iat", `"x"`)},
 		{name: "maxage-config-100-exceeded", expect: "reject", pre: func(c *Ctx, m *tokMat, kn *cfgKnobs) { kn.maxAge = 100 },
